@@ -91,8 +91,13 @@ pub fn repair_once<R: Read>(par: &Par, input: R, unauth: bool, orig: &HashMap<St
     let r = guarded(move || -> Result<Value, String> {
         let mut cfg = archive::reader_config(&par2);
         // the authenticated mode is the DEFAULT of the reader configuration (C04 speaks of the default): no setter call
+        // every other time; otherwise the mode is set away and back explicitly (the setter must be honoured too)
+        static ROUND: std::sync::atomic::AtomicUsize = std::sync::atomic::AtomicUsize::new(0);
         if unauth {
             cfg.failsafe_return_data_even_unauthenticated();
+        } else if ROUND.fetch_add(1, std::sync::atomic::Ordering::Relaxed) % 2 == 1 {
+            cfg.failsafe_return_data_even_unauthenticated();
+            cfg.failsafe_return_only_authenticated_data();
         }
         let mut fs = match ArchiveFailSafeReader::from_config(input, cfg) {
             Ok(f) => f,
